@@ -648,6 +648,41 @@ impl World {
             }
         }
     }
+    /// names of the service-level files below the own root (static configs, type-definition directories, the service
+    /// tags of the case's nodes): what a refused create / open / open_or_create must leave exactly as it was
+    fn root_snapshot(&self) -> Vec<String> {
+        let mut v = vec![];
+        let mut scan = |dir: String, depth: usize| {
+            if let Ok(rd) = std::fs::read_dir(&dir) {
+                for e in rd.flatten() {
+                    let nm = e.file_name().to_string_lossy().to_string();
+                    if e.path().is_dir() && depth == 0 {
+                        v.push(format!("{nm}/"));
+                        if let Ok(rd2) = std::fs::read_dir(e.path()) {
+                            for e2 in rd2.flatten() {
+                                v.push(format!("{nm}/{}", e2.file_name().to_string_lossy()));
+                            }
+                        }
+                    } else {
+                        v.push(nm);
+                    }
+                }
+            }
+        };
+        scan(format!("{}/services", root_dir()), 0);
+        for d in &self.node_dirs {
+            if let Ok(rd) = std::fs::read_dir(format!("{}/nodes/{d}", root_dir())) {
+                for e in rd.flatten() {
+                    let nm = e.file_name().to_string_lossy().to_string();
+                    if nm.ends_with(".service_tag") {
+                        v.push(format!("{d}/{nm}"));
+                    }
+                }
+            }
+        }
+        v.sort();
+        v
+    }
     fn drop_all(&mut self) {
         self.ports.clear();
         self.handles.clear();
@@ -699,7 +734,19 @@ impl World {
                     self.touched.push(key.clone());
                 }
                 self.last_key = Some(key.clone());
-                match call(node, &self.name(s), pat, &r, mode) {
+                let before = self.root_snapshot();
+                let result = call(node, &self.name(s), pat, &r, mode);
+                if result.is_err() {
+                    // property: a refused call leaves the service untouched (and nothing half-made behind)
+                    let after = self.root_snapshot();
+                    if after != before {
+                        let plus: Vec<&String> = after.iter().filter(|x| !before.contains(x)).collect();
+                        let minus: Vec<&String> = before.iter().filter(|x| !after.contains(x)).collect();
+                        let kind = |v: &Vec<&String>| { let mut k: Vec<String> = v.iter().map(|x| x.rsplit('.').next().unwrap_or("?").to_string()).collect(); k.sort(); k.dedup(); k.join("+") };
+                        oracle_fail(format!("refused {} changed the files: appeared [{}] vanished [{}]", t[0], kind(&plus), kind(&minus)));
+                    }
+                }
+                match result {
                     Ok(h) => {
                         let st = h.settings();
                         let uid = h.uid();
